@@ -133,6 +133,64 @@ class BasicBlockNode:
         except IndexError:
             return None
 
+    def _basic_block_position(self, instr_index: int) -> int:
+        """Translate an index into `instructions` to a position in the basic block.
+
+        Besides real instructions, a basic block holds pseudo-instructions (`TryBegin`,
+        `TryEnd`) that are not part of `instructions`. All instruction indices handed
+        out by this class (`try_get_instruction`, `find_instruction_by_original_index`,
+        `instrumentation_original_instructions`) count real instructions only, so they
+        must be translated before they are used to modify the basic block.
+
+        Args:
+            instr_index: The index of the instruction in `instructions`, may be negative
+
+        Returns:
+            The position of that instruction in the basic block
+
+        Raises:
+            IndexError: If no such instruction exists
+        """
+        return tuple(
+            position for position, instr in enumerate(self._basic_block) if isinstance(instr, Instr)
+        )[instr_index]
+
+    def before(self, instr_index: int) -> slice:
+        """Get the basic-block slice for inserting right before an instruction.
+
+        Args:
+            instr_index: The index of the instruction in `instructions`
+
+        Returns:
+            A slice of the basic block for inserting before the given instruction.
+        """
+        position = self._basic_block_position(instr_index)
+        return slice(position, position)
+
+    def after(self, instr_index: int) -> slice:
+        """Get the basic-block slice for inserting right after an instruction.
+
+        Args:
+            instr_index: The index of the instruction in `instructions`
+
+        Returns:
+            A slice of the basic block for inserting after the given instruction.
+        """
+        position = self._basic_block_position(instr_index)
+        return slice(position + 1, position + 1)
+
+    def override(self, instr_index: int) -> slice:
+        """Get the basic-block slice for overriding an instruction.
+
+        Args:
+            instr_index: The index of the instruction in `instructions`
+
+        Returns:
+            A slice of the basic block for overriding the given instruction.
+        """
+        position = self._basic_block_position(instr_index)
+        return slice(position, position + 1)
+
     @property
     def original_instructions(self) -> Iterable[Instr]:
         """Provides the original instructions of the basic block.
